@@ -535,8 +535,17 @@ type FuncContract struct {
 	Asserts  map[int][]*Clause // ghost asserts keyed by statement ordinal? (unused for now)
 	Props    []string // property ids this contract serves
 	Diag     bool     // explicit panics allowed (default true)
+	CallArgs []*CallArgClause // callarg <callee>@<k> <i> <expr>: the i-th argument (0-based) of the k-th call to callee equals expr
 	GhostSets [][2]string // ghostset <name> <expr>: at every exit the ghost flag <name> of object <expr> becomes 1
 	Line     string
+}
+
+type CallArgClause struct {
+	Callee string
+	Ord    int
+	Idx    int
+	Text   string
+	Expr   SNode
 }
 
 type LoopContract struct {
@@ -652,6 +661,24 @@ func parseContractText(pkg, fname, text string) (*ContractFile, error) {
 			if err := flush(); err != nil {
 				return nil, err
 			}
+		case "callarg":
+			if err := flush(); err != nil {
+				return nil, err
+			}
+			// callarg fmt.Sprintf@2 5 len(choix)
+			tgt, rest2 := splitWord(rest)
+			idxs, expr := splitWord(rest2)
+			at := strings.LastIndex(tgt, "@")
+			if at < 0 {
+				return nil, fmt.Errorf("%s: callarg needs <callee>@<k>", where)
+			}
+			ord, err1 := strconv.Atoi(tgt[at+1:])
+			idx, err2 := strconv.Atoi(idxs)
+			e, err3 := parseSpecExpr(expr)
+			if err1 != nil || err2 != nil || err3 != nil {
+				return nil, fmt.Errorf("%s: bad callarg clause", where)
+			}
+			cur.CallArgs = append(cur.CallArgs, &CallArgClause{Callee: tgt[:at], Ord: ord, Idx: idx, Text: expr, Expr: e})
 		case "ghostset":
 			if err := flush(); err != nil {
 				return nil, err
